@@ -45,7 +45,7 @@ def load_known(prop):
 
 def _match_known(known, contract, case, label):
     for e in known:
-        if e.get('contract') == contract and (e.get('case') in (None, '*', case)) and \
+        if contract.startswith(e.get('contract', '\0')) and (e.get('case') in (None, '*', case)) and \
                 any(label.startswith(l) for l in e.get('labels', [''])):
             return e
     return None
